@@ -217,6 +217,17 @@ def genLine (args : List String) : String :=
     | none => "bad"
   | ["sig", kt] => match parseKt kt with
     | some kt => hexOf kt.sig | none => "bad"
+  | ["cmp", kt, a, b] => match parseKt kt, parseBytes a, parseBytes b with
+    | some kt, some a, some b =>
+      let r := match kt with
+        | .string => Gen.cmpU8String a b | .bytes => Gen.cmpU8Bytes a b | .u64 => Gen.cmpU8U64 a b
+        | .i64 => Gen.cmpU8I64 a b | .vu64 => Gen.cmpU8Vu64 a b
+      match r with
+      | some .lt => "lt" | some .eq => "eq" | some .gt => "gt" | none => "panic"
+    | _, _, _ => "bad"
+  | ["u64be", kt, x] => match x.toNat? with
+    | some x => if kt == "string" then hexOf (Gen.stringKeyOfU64 x) else hexOf (Gen.bytesKeyOfU64 x)
+    | none => "bad"
   | _ => "bad"
 
 def handle (ms : Maps) (line : String) : IO (Maps × String) := do
